@@ -19,7 +19,7 @@ ASSUMPTIONS = [
     "per-destination session counters are preset to symbolic values 1..0xFFFF so that the wrap is covered without sending 65535 messages",
     "handlers/listeners raise nothing but NakSubscription",
 ]
-REACH = {"H17": ["h17.initial", "h17.round", "h17.refused", "h17.end"], "H17c": ["h17.cyclic", "h17.end"], "H17s": ["h17.ack", "h17.nack", "h17.end"]}
+REACH = {"H17r": ["h17r.round", "h17r.end"], "H17": ["h17.initial", "h17.round", "h17.refused", "h17.end"], "H17c": ["h17.cyclic", "h17.end"], "H17s": ["h17.ack", "h17.nack", "h17.end"]}
 SVC, MAJOR = 0x4321, 2
 EPS = {
     "e1": ("v4", "192.0.2.7", 4000),
@@ -35,6 +35,7 @@ def bounds(tier):
     return {
         "H17": "non-cyclic eventgroup with 2 events: K<=%d calls from {subscribe(endpoint in 3), unsubscribe(endpoint), unsubscribe of an endpoint that is not subscribed, value update, notify_once(subset in 3), subscription with 0 / 2 endpoints, subscription for an unknown eventgroup}; gaps symbolic 0..50 ms; counters symbolic" % k,
         "H17c": "cyclic eventgroup (1 s): subscribe at a symbolic instant followed by none / unsubscribe / second subscriber / value update / unsubscribe+resubscribe at symbolic instants (0..2500 ms apart), observed 2500 ms beyond",
+        "H17r": "races inside one tick: 2..3 settled subscribers, notify_once and - in the same loop iteration or 1..3 iterations later while the round's address look-ups are pending - a subscribe / unsubscribe / bogus unsubscribe / value update / second notify_once",
         "H17s": "through service discovery: Subscribe datagram (1 endpoint / 2 endpoints / undeclared eventgroup, TTL symbolic) to an announced SimpleService, then StopSubscribe",
     }
 
@@ -75,6 +76,11 @@ def cases(tier, seed):
         out.append({"h": "H17c", "scen": scen, "_w": 5})
     for kind in ("one", "two", "undeclared", "v6"):
         out.append({"h": "H17s", "kind": kind, "_w": 2})
+    for nsubs in (2, 3):
+        for change in ("sub", "unsub", "unsub_x", "update", "notify"):
+            if nsubs == 3 and change == "sub":
+                continue
+            out.append({"h": "H17r", "nsubs": nsubs, "change": change, "_w": 3})
     return out
 
 
@@ -219,6 +225,72 @@ def h17(E, M, case):
     E.require(want == have, "the subscriber table holds exactly the current subscribers")
 
 
+def h17r(E, M, case):
+    """a change of the subscriber set (or value) while a notification round is in flight"""
+    loop = new_loop(E)
+    svc, evg, tr = _mkservice(E, M, loop)
+    names = ["e1", "e2", "e3"][: case["nsubs"]]
+    for n in names:
+        loop.deliver(1, lambda n=n: svc.client_subscribed(_subscription(M, [_ep(M, n)]), P), may_defer=False)
+    loop.settle(5)
+    n0 = len(tr.sent)
+    change = case["change"]
+    touched = None
+    newv = b"\xcc\xcc\xcc"
+
+    def second():
+        if change == "sub":
+            svc.client_subscribed(_subscription(M, [_ep(M, "e3")]), P)
+        elif change == "unsub":
+            svc.client_unsubscribed(_subscription(M, [_ep(M, names[-1])]), P)
+        elif change == "unsub_x":
+            svc.client_unsubscribed(_subscription(M, [M.header.IPv4EndpointOption(ipaddress.IPv4Address("192.0.2.99"), M.header.L4Protocols.UDP, 4999)]), P)
+        elif change == "update":
+            evg.values[1] = newv
+        else:
+            evg.notify_once([2])
+
+    if change == "sub":
+        touched = "e3"
+    elif change == "unsub":
+        touched = names[-1]
+    sc = Script(loop, E)
+    sc.at(10, lambda: evg.notify_once([1]), "notify", joinable=False)
+    sc.at(10, second, "second")  # same batch, or up to three iterations later (defer choices)
+    sc.flush()
+    loop.settle(20)
+    loop_clean(E, loop)
+    E.reach("h17r.end")
+    obs = [{"t": ts, "to": addr, "msgs": wire.parse_someip_all(data)} for (ts, data, addr) in tr.sent[n0:]]
+    E.observe([[str(o["to"]), [[m["method"], m["session"]] for m in o["msgs"]]] for o in obs])
+    for n in ["e1", "e2", "e3"]:
+        mine = [o for o in obs if o["to"] == ADDR[n]]
+        rounds1 = [o for o in mine if [m["method"] for m in o["msgs"]] == [0x8001]]
+        rounds2 = [o for o in mine if [m["method"] for m in o["msgs"]] == [0x8002]]
+        initial = [o for o in mine if [m["method"] for m in o["msgs"]] == [0x8001, 0x8002]]
+        E.require(len(rounds1) + len(rounds2) + len(initial) == len(mine), "only round and initial notifications are sent")
+        stable = n in names and n != touched
+        if stable:
+            E.reach("h17r.round")
+            E.require(len(rounds1) == 1, "every endpoint that stays subscribed throughout a notification round receives it exactly once, whatever else happens meanwhile", {"endpoint": n, "got": len(rounds1), "change": change})
+            if change == "notify":
+                E.require(len(rounds2) == 1, "a second round requested meanwhile reaches it as well", {"endpoint": n, "got": len(rounds2)})
+        elif n == touched:
+            E.require(len(rounds1) <= 1, "an endpoint joining or leaving during a round receives it at most once")
+            if change == "sub":
+                E.require(len(initial) == 1, "the new subscriber still gets its initial notification")
+        else:
+            E.require(not mine, "nothing goes to an endpoint that never subscribed")
+        # payload and counters
+        base = 3  # two initial messages were sent before
+        seq = [m["session"] for o in mine for m in o["msgs"]]
+        start = 3 if n in names else 1
+        E.require(seq == list(range(start, start + len(seq))), "per-destination session ids stay consecutive", {"endpoint": n, "sessions": seq})
+        for o in rounds1:
+            v = bytes(o["msgs"][0]["payload"])
+            E.require(v == b"\x01" or (change == "update" and v == newv), "the round carries the event's value (old or new when updated within the same tick)")
+
+
 def h17c(E, M, case):
     loop = new_loop(E)
     svc, evg, tr = _mkservice(E, M, loop, interval=1)
@@ -350,4 +422,4 @@ def h17s(E, M, case):
     E.require(not evg.subscribed_endpoints, "after StopSubscribe nobody is subscribed")
 
 
-SCENARIOS = {"H17": h17, "H17c": h17c, "H17s": h17s}
+SCENARIOS = {"H17": h17, "H17c": h17c, "H17s": h17s, "H17r": h17r}
